@@ -170,7 +170,7 @@ NOTES = {
         "text": "Kernel-checked exact characterisation of generic_token::{Account,Mint}::unpack on every byte string and program id (no panic branch, mutual exclusion, "
                 "unknown ids, exact lengths, 355/marker rule, returned bytes = documented offsets). Unchecked getters are modelled with panicking slice primitives, so totality is a theorem, not a convention.",
         "design_ref": "§5 C17",
-        "note": TB + "bytemuck::from_bytes on a 32-byte align-1 slice is assumed infallible.",
+        "note": TB + "the eight boolean predicates (validity of the four implementors, initialised-byte tests, known-id test) are additionally regenerated from the Rust source expression by expression on every run and proved equal to the model functions (C17_source_predicates), so for them the theorems are re-checked against the current code; bytemuck::from_bytes on a 32-byte align-1 slice is assumed infallible.",
         "technique": "Lean 4 theorem (unbounded, kernel-checked) + translator-regenerated constants + differential correspondence with oracle search",
     },
 }
